@@ -74,7 +74,8 @@ UNCHANGED_OPEN = Clause('GHOST.open_files == old(GHOST.open_files)', carries='C1
 LOADER_SCHEMA = ['*loader.ConfigLoader.schema', '*loader.ConfigLoader._private_schema', '*loader.ConfigLoader._loader']
 CTX_MOD2 = CTX_MOD + ['GHOST.open_files'] + LOADER_SCHEMA
 IOERR = Raise('OSError', then=[UNCHANGED_OPEN], label='io-error-while-reading-a-resource (environment fault, passes through)')
-prim('url_ok', 'str -> bool')      # urllib can parse the URL (no ValueError)
+prim('url_ok', 'str -> bool', args=['u'],      # urllib can parse the URL (no ValueError)
+     axioms=['implies(result, url_ok(file3(u)))'])   # (assumed) writing out the empty host of a file URL keeps it parseable
 assumed('ParserContext.startSection', self_type='ParserContext',
         params={'section': 'Ref[Sink]', 'type_': 'str', 'name': 'Opt[str]'}, returns='Ref[Sink]',
         modifies=CTX_MOD, raises=[Raise('ZConfig.ConfigurationError+')])
@@ -100,10 +101,15 @@ model('cfgparser.ZConfigParser',
               'url': 'Opt[str]', 'lineno': 'int', 'stack': STACK, 'defines': 'Ref[dict:defines]'},
       invariant=[Clause('self.lineno >= 0', label='lineno-nonneg')])
 
-assumed('url.urljoin', params={'base': 'Opt[str]', 'relurl': 'str'}, returns='str', pure=True,
-        raises=[Raise('ValueError')],
-        notes='ZConfig.url.urljoin = urllib urljoin + file:/// normalisation; urllib may raise ValueError '
-              'for malformed URLs (CPython does)')
+assumed('urllib.request.urljoin', params={'base': 'Opt[str]', 'url': 'str'}, returns='str', pure=True,
+        ensures=[Clause('result == raw_join(base, url)')], raises=[Raise('ValueError')],
+        notes='urllib reference resolution (RFC 3986); may raise ValueError for malformed URLs (CPython does)')
+contract('url.urljoin', params={'base': 'Opt[str]', 'relurl': 'str'}, returns='str',
+         ensures=[Clause('result == urljoin_val(base, relurl)', carries='C18',
+                         label='resolved-reference-in-file-three-slash-form'),
+                  Clause('url_ok(result)')],
+         hints=['url_ok(raw_join(base, relurl))'],
+         raises=[Raise('ValueError', label='malformed-url')])
 
 # ---- the parser ------------------------------------------------------------------------------------------
 contract('cfgparser.ZConfigParser.__init__',
@@ -206,8 +212,14 @@ c.raises = [Raise('ZConfig.ConfigurationError+', when='define_err(self.defines.i
                   then=POS + [Clause('self.defines.items == old(self.defines.items)', carries='C05', label='unchanged')],
                   carries='C05', label='rejected')]
 
-prim('urljoin_val', 'Opt[str], str -> str')
-REGISTRY['url.urljoin'].ensures = [Clause('result == urljoin_val(base, relurl)'), Clause('url_ok(result)')]
+import spec.urls as SU
+spec_module(SU)
+# urllib (assumed): reference resolution; the scheme of the result is lower-case (urlsplit lower-cases it)
+prim('raw_join', 'Opt[str], str -> str', args=['b', 'r'],
+     axioms=["result.lower().startswith('file:/') == result.startswith('file:/')",
+             "result.lower().startswith('file:///') == result.startswith('file:///')", 'url_ok(result)'])
+prim('raw_defrag', 'str -> str')
+prim('raw_frag', 'str -> str')
 
 contract('cfgparser.ZConfigParser.handle_import',
          params={'section': 'Ref[Sink]', 'rest': 'str'}, modifies=CTX_MOD2,
